@@ -3,7 +3,6 @@
 import ast
 import builtins
 import copy
-import functools
 import inspect
 import sys
 import uuid
@@ -570,19 +569,30 @@ class Visitor(ast.NodeVisitor):
         return result
 
     def visit_BoolOp(self, node: ast.BoolOp) -> Any:
-        """Recursively visit the operands and apply the operation on them."""
-        values = [self.visit(value_node) for value_node in node.values]
-
-        # Please see "NOTE ABOUT PLACEHOLDERS AND RE-COMPUTATION"
-        if any(value is PLACEHOLDER for value in values):
-            return PLACEHOLDER
-
-        if isinstance(node.op, ast.And):
-            result = functools.reduce(lambda left, right: left and right, values, True)
-        elif isinstance(node.op, ast.Or):
-            result = functools.reduce(lambda left, right: left or right, values, True)
-        else:
+        """Recursively visit the operands as long as Python would evaluate them and apply the operation on them."""
+        if not isinstance(node.op, (ast.And, ast.Or)):
             raise NotImplementedError("Unhandled op of {}: {}".format(node, node.op))
+
+        result = None  # type: Optional[Any]
+        seen_placeholder = False
+        for i, value_node in enumerate(node.values):
+            result = self.visit(value_node)
+
+            # Please see "NOTE ABOUT PLACEHOLDERS AND RE-COMPUTATION"
+            if result is PLACEHOLDER:
+                seen_placeholder = True
+
+            # Short-circuit as Python does; we can not short-circuit after a placeholder as its value is unknown.
+            if not seen_placeholder and i < len(node.values) - 1:
+                if isinstance(node.op, ast.And):
+                    if not result:
+                        break
+                else:
+                    if result:
+                        break
+
+        if seen_placeholder:
+            return PLACEHOLDER
 
         self.recomputed_values[node] = result
         return result
